@@ -167,3 +167,106 @@ func (s *longStreamLexer) Next() (Token, error) {
 	}
 	return t, nil
 }
+
+// TestVerif_C15C12_UpgradeKeepsTokens: Upgrade stores the tokens of the lexer it is given as they are (C15: Parser.Lex,
+// which goes through ConsumeAll, returns exactly the tokens a parse consumes, which go through Upgrade), also the odd
+// ones a hand-written lexer may produce: an EOF token without a position, tokens without values, equal positions.
+func TestVerif_C15C12_UpgradeKeepsTokens(t *testing.T) {
+	res := &verifResult{Check: "Upgrade keeps the tokens", Property: "C15 C12", Exhaustive: true,
+		Bound: "streams of 0-3 tokens over {positioned, position-less, empty-valued} x an EOF token with / without a position and with / without a value; with and without an elided type",
+		Rule: "streams; non-trivial = some token lacks a position or a value"}
+	kinds := []Token{
+		{Type: -2, Value: "a", Pos: Position{Filename: "f", Offset: 3, Line: 1, Column: 4}},
+		{Type: -3, Value: "b"},
+		{Type: -2, Value: "", Pos: Position{Filename: "f", Offset: 7, Line: 2, Column: 1}},
+	}
+	eofs := []Token{{Type: EOF}, {Type: EOF, Pos: Position{Filename: "f", Offset: 9, Line: 2, Column: 3}}, {Type: EOF, Value: "$"}}
+	var streams [][]Token
+	var gen func(prefix []Token, n int)
+	gen = func(prefix []Token, n int) {
+		for _, e := range eofs {
+			streams = append(streams, append(append([]Token{}, prefix...), e))
+		}
+		if n == 0 {
+			return
+		}
+		for _, k := range kinds {
+			gen(append(prefix[:len(prefix):len(prefix)], k), n-1)
+		}
+	}
+	gen(nil, 3)
+	for _, st := range streams {
+		for _, elide := range [][]TokenType{nil, {-3}} {
+			res.Evaluations++
+			res.Distinct++
+			all, err := ConsumeAll(&longStreamLexer{toks: st})
+			p, err2 := Upgrade(&longStreamLexer{toks: st}, elide...)
+			if err != nil || err2 != nil {
+				res.violate("stream %v: ConsumeAll / Upgrade fail: %v %v", st, err, err2)
+				continue
+			}
+			got := p.Range(0, RawCursor(len(st)))
+			if fmt.Sprintf("%#v", got) != fmt.Sprintf("%#v", st) || fmt.Sprintf("%#v", all) != fmt.Sprintf("%#v", st) {
+				res.violate("stream %#v: Upgrade holds %#v, ConsumeAll returns %#v", st, got, all)
+			}
+		}
+	}
+	res.sample(fmt.Sprintf("%#v", streams[5]))
+	res.emit(t)
+}
+
+// TestVerif_C07C03_SimpleRulesWithBackslashDigit: a definition made by NewSimple whose pattern holds a backslash-digit
+// escape (which New takes for a back-reference and does not compile) lexes to tokens or to an error, never to a panic.
+func TestVerif_C07C03_SimpleRulesWithBackslashDigit(t *testing.T) {
+	res := &verifResult{Check: "simple rules with a backslash-digit escape", Property: "C07 C03", Exhaustive: true,
+		Bound: "NewSimple over 2-3 rules, one of them with \\1, \\0 or \\12 in its pattern, first / last; all inputs of <= 3 characters over {a, =, 1, \\n}",
+		Rule: "(definition, input) pairs; non-trivial = the escaped rule is tried"}
+	for _, pat := range []string{`=\1`, `\0`, `a\12`, `(=)\1`} {
+		for _, first := range []bool{true, false} {
+			rules := []SimpleRule{{Name: "A", Pattern: `a`}, {Name: "One", Pattern: `1`}}
+			if first {
+				rules = append([]SimpleRule{{Name: "B", Pattern: pat}}, rules...)
+			} else {
+				rules = append(rules, SimpleRule{Name: "B", Pattern: pat})
+			}
+			def, err := NewSimple(rules)
+			if err != nil {
+				continue // refusing the rule set is fine
+			}
+			var rec func(in string)
+			rec = func(in string) {
+				res.Evaluations++
+				res.Distinct++
+				func() {
+					defer func() {
+						if r := recover(); r != nil {
+							res.violate("pattern %q (first: %v), input %q: panic: %v", pat, first, in, r)
+						}
+					}()
+					l, err := def.LexString("", in)
+					if err != nil {
+						return
+					}
+					for i := 0; i <= len(in)+1; i++ {
+						tok, err := l.Next()
+						if err != nil || tok.EOF() {
+							return
+						}
+						if tok.Value == "" {
+							res.violate("pattern %q, input %q: empty token", pat, in)
+							return
+						}
+					}
+					res.violate("pattern %q, input %q: no EOF within %d tokens", pat, in, len(in)+2)
+				}()
+				if len(in) < 3 {
+					for _, c := range []string{"a", "=", "1", "\n"} {
+						rec(in + c)
+					}
+				}
+			}
+			rec("")
+		}
+	}
+	res.emit(t)
+}
